@@ -169,6 +169,26 @@ def const_value(e):
     return None
 
 
+def eq_const(t):
+    """`expr == const` or `const == expr` (also !=): returns (expr, const value, is_eq) or None."""
+    if isinstance(t, ast.Compare) and len(t.ops) == 1 and isinstance(t.ops[0], (ast.Eq, ast.NotEq)):
+        l, r = t.left, t.comparators[0]
+        if const_value(r) is not None and const_value(l) is None:
+            return l, const_value(r), isinstance(t.ops[0], ast.Eq)
+        if const_value(l) is not None and const_value(r) is None:
+            return r, const_value(l), isinstance(t.ops[0], ast.Eq)
+    return None
+
+
+def guard_eq(fn, node, value, stop=None):
+    """Is ``node`` guarded (positively) by an equality test of some expression against ``value``?"""
+    for t, pol, k in norm_guards(fn, node, stop):
+        e = eq_const(t)
+        if e is not None and e[1] == value and e[2] == pol:
+            return True
+    return False
+
+
 def fmt_slots(s):
     """Number of conversion slots in a %-format string (ignores %%)."""
     return len(re.findall(r"%(?!%)[-+ #0]*\d*(?:\.\d+)?[diouxXeEfFgGcrs]", s.replace("%%", "")))
